@@ -14,9 +14,10 @@ OBLIGATIONS = [
      "guarded_ok (N.of_nat (length class_names)) (N.of_nat (length field_names)) rprogram (exempt_of field_names) = true",
      "vm_compute. reflexivity."),
     ("C11_gen_lock_order",
+     "acq_closed rprogram (acq_sets rprogram) = true /\\ "
      "order_ok (length class_names) (order_edges (all_classes (N.of_nat (length class_names))) rprogram "
      "(infer_entries (all_classes (N.of_nat (length class_names))) rprogram)) = true",
-     "vm_compute. reflexivity."),
+     "split; vm_compute; reflexivity."),
     # by Proofs/SplitCsSound.sp_all_sound: on every path of every non-constructor function no field is written on a stale reading
     ("C11_gen_check_then_act",
      "sp_all_ok (all_classes (N.of_nat (length class_names))) rprogram (infer_entries (all_classes (N.of_nat (length class_names))) rprogram) = true",
